@@ -6,6 +6,7 @@ CONSTANTS
   MoveKeepsSize = TRUE
   ObserveMoved = FALSE
   Targets <- OnlyFirst
+  SplitNext = FALSE
   OtherSeqs <- RepOther
 CONSTRAINT SizeBound
 VIEW absview
